@@ -64,8 +64,10 @@ def gen_chain(rng):
 
     def rr():
         o = rng.choice(owners)
-        t = rng.choice(("A", "A", "TXT", "MX", "AAAA"))
-        text = {"A": f"10.{rng.randrange(4)}.0.{rng.randrange(1, 6)}", "TXT": f'"t{rng.randrange(6)}"', "MX": f"{rng.randrange(3) * 10} mx{rng.randrange(3)}.example.", "AAAA": f"2001:db8::{rng.randrange(1, 6):x}"}[t]
+        t = rng.choice(("A", "A", "TXT", "MX", "AAAA", "RRSIG"))
+        text = {"A": f"10.{rng.randrange(4)}.0.{rng.randrange(1, 6)}", "TXT": f'"t{rng.randrange(6)}"', "MX": f"{rng.randrange(3) * 10} mx{rng.randrange(3)}.example.", "AAAA": f"2001:db8::{rng.randrange(1, 6):x}",
+                # signatures: one record set per covered type at a name; a re-signing diff deletes and adds them
+                "RRSIG": f"{rng.choice(('A', 'TXT', 'MX'))} 8 2 300 20300101000000 20200101000000 {rng.randrange(1, 4)} example. q83v"}[t]
         return (o, t, ttl_for(o, t), text)
 
     start = rng.choice((1, 5, 2**31 - 2, 2**32 - 3, 2**32 - 1, rng.randrange(1, 2**32)))
@@ -74,8 +76,8 @@ def gen_chain(rng):
     for _ in range(k):
         step = rng.choice((1, 1, 2, 1000, 2**31 - 1))
         s = (serials[-1] + step) % 2**32
-        if s == 0:
-            s = 1
+        while s == 0 or s in serials:
+            s = (s + 1) % 2**32  # a serial that comes round again inside one chain would end the incremental stream early
         serials.append(s)
     base = {("example.", "NS", 3600, "ns.example.")}
     for _ in range(rng.randint(1, 6)):
@@ -266,7 +268,7 @@ def content_of(recs, serial):
     for o, t, ttl, text in list(recs) + [soa(serial)]:
         rd = dns.rdata.from_text("IN", t, text)
         k = tuple(RN.fold(l) for l in dns.name.from_text(o).labels)
-        cur = out.setdefault(k, {}).setdefault((int(rd.rdtype), 0), [ttl, set()])
+        cur = out.setdefault(k, {}).setdefault((int(rd.rdtype), int(rd.covers())), [ttl, set()])
         cur[1].add(rd.to_digestable())
     return {k: {kk: (v[0], frozenset(v[1])) for kk, v in d.items()} for k, d in out.items()}
 
